@@ -21,7 +21,7 @@ ANSI_ALPHA = ["a", "\x1b", "[", "\x9b", ";", "m", "3", "1", "\x01", "\x02", "C",
 VAL_ALPHA = ["a", " ", "\x1b", "[", "\x9b", ";", "m", "3", "1", "\x01", "\x02", "C", "\xb2", "\b",
              "{", "}", "%", ":", "\xe9", "\n"]
 HTML_VAL_ALPHA = ["a", " ", "<", ">", "&", '"', "'", "=", "\x1b", "\x9b", "\x01", "\x02", "{", "}", "%",
-                  ":", ";", "/", "\n", "\xa0", "\xe9", "b", "]"]
+                  ":", ";", "/", "\n", "\xa0", "\xe9", "b", "]", "["]
 BREAKOUT_ALPHA = ["'", " ", "=", "b", "g", "x", "/"]
 HTML_RAW_ALPHA = ["<", ">", "/", "b", " ", "&", ";", "a", "=", "'", '"', "#", "6"]
 HTML_SPECIAL_DOCS = ["&#65;&#x42;&#x1F600;", "&#0;", "&#x1b;", "&#xD800;", "&#x110000;", "&#X41;", "&#;", "&#x;", "&#65", "&#1114111;",
@@ -29,7 +29,9 @@ HTML_SPECIAL_DOCS = ["&#65;&#x42;&#x1F600;", "&#0;", "&#x1b;", "&#xD800;", "&#x1
                      "<i bg='&#32;'>x</i>", "<i bg='a&#9;b'>x</i>", "&#6" + "6" * 30 + ";", "&#xa;&#xd;", "a<!-- c -->b", "a<![CDATA[x]]>b", "a<?p d?>b"]
 HTML_SPECIAL_VALUES = ["]]>", "]]", "a]]>b", "&#65;", "&amp;", "&lt;b&gt;", "<b>", "</b>", "<!--", "-->", "<![CDATA[", "<?x?>",
                        "</html-root>", "<html-root>", "red' bg='blue", 'red" bg="blue', "red\xa0bold", "a\tb", "\x1b[0m", "\ufffe",
-                       "%s", "{}", "{0}", "%(a)s", "&apos;", "&quot;", "x' y='z", "'/><b>", "\U0001f600", "\x7f\x85"]
+                       "%s", "{}", "{0}", "%(a)s", "&apos;", "&quot;", "x' y='z", "'/><b>", "\U0001f600", "\x7f\x85",
+                       # special "[...]" style tokens: a style string containing one is treated as that token
+                       ZWE, "a" + ZWE, "x" + ZWE + "y", "[", "[]", "[ZeroWidthEscape", "[SetCursorPosition]", "[zerowidthescape]"]
 BENIGN = "\u0101\u0113\u012b\u014d"                                # one private letter per hole; templates never contain them
 
 OPN = {1: "split_lines", 2: "fragment-helpers", 3: "ANSI", 4: "ANSI-interpolation", 5: "escape",
@@ -64,7 +66,8 @@ def probe_cfg():
     xmlsafe = html_escape("\x1b\x00\ufffe") == "???"
     zw = frs(lambda: ANSI("\x01a\x02\x01b\x02c")) == [(ZWE, "a"), (ZWE, "b"), ("", "c")]
     attr = frs(lambda: HTML('<style fg="a\xa0b">x</style>')) == "ValueError"
-    return [int(c1), int(dig), int(apos), int(xmlsafe), int(zw), int(attr)]
+    brk = frs(lambda: HTML('<style bg="a[b">x</style>')) == "ValueError"
+    return [int(c1), int(dig), int(apos), int(xmlsafe), int(zw), int(attr), int(brk)]
 
 
 # --------------------------------------------------------------------------
@@ -116,6 +119,17 @@ FORMAT_SPECS = [">4", "<6", "^5", ".3", "8.2", "_^7", "6.4", ">1", ".0"]
 PERCENT_SPECS = {">4": "%4s", "<6": "%-6s", ".3": "%.3s", "8.2": "%-8.2s", "6.4": "%-6.4s", ">1": "%1s", ".0": "%.0s"}
 
 
+def _explained(cls, t, raw, r3):
+    """96 when the deviation of `cls(t) % raw` from the reference is exactly what "escape every value, then let
+    the % operator convert the escaped strings" gives (the known shape of __mod__), 93 when it is something else."""
+    from prompt_toolkit.formatted_text import ANSI
+    from prompt_toolkit.formatted_text.ansi import ansi_escape
+    from prompt_toolkit.formatted_text.html import html_escape
+    esc = ansi_escape if cls is ANSI else html_escape
+    r4 = _markup(cls, lambda: cls(t % tuple(esc(i) for i in raw)))
+    return 96 if r4 == r3 else 93
+
+
 def run_template(cls, parts, vals, specs=None, raw=None, pspecs=None):
     """Every engine/field syntax must give the same result; [97, r_mod, r_other] when two disagree:
     the % operator, and format() with {} / {:s} / {!s} / {0}.. / {name} fields.
@@ -154,14 +168,14 @@ def run_template(cls, parts, vals, specs=None, raw=None, pspecs=None):
         arg2 = tuple(raw) if (len(raw) != 1 or isinstance(raw[0], (tuple, dict)) or len(vals[0]) % 2 == 0) else raw[0]
         r3 = _markup(cls, lambda: cls(t) % arg2)
         if r1 != r3:
-            return [96, r1, r3]
+            return [_explained(cls, t, raw, r3), r1, r3]
         return r1
     if specs and all(sp in PERCENT_SPECS for sp in specs):
         plit = [p.replace("%", "%%") for p in parts]
         t = join(lambda j: PERCENT_SPECS[specs[j]], plit)
         r3 = _markup(cls, lambda: cls(t) % tuple(raw))
         if r1 != r3:
-            return [96, r1, r3]
+            return [_explained(cls, t, raw, r3), r1, r3]
     return r1
 
 
@@ -509,13 +523,10 @@ def oracle_ansi(s, res):
     if not any(c in s for c in "\x01\x1b\x9b"):
         if frs != [("", c) for c in s]:
             return ("plain text did not come back as unstyled one-character fragments", {"family": "plain"})
-    ev, ez, amb = ansi_expected(s)
-    if amb:
-        return None
+    # (a non-ASCII digit after CSI is an ordinary final character since 86103a9: nothing is ambiguous any more)
+    ev, ez, _ = ansi_expected(s)
     if (vis, zws) != (ev, ez):
-        qv, qz, qamb = ansi_expected(s, quirk=True)
-        if qamb and (vis, zws) != (qv, qz):
-            return None         # non-ASCII digit in parameter position on the path the code takes: not decided here
+        qv, qz, _ = ansi_expected(s, quirk=True)
         if (vis, zws) == (qv, qz):
             return ("ANSI(%r): a zero-width region directly after another one is not recognised: visible text %r, expected %r"
                     % (s[:40], vis[:40], ev[:40]), {"family": "zero-width-adjacent"})
@@ -570,16 +581,23 @@ def _inert_check(kind, parts, vals, holes, run):
     if rb[0] != 0:
         return None     # not a usable template
     # the documented fg/bg guard: a value with whitespace at an attribute position may be refused
-    guard = any(h != "t" and any(c.isspace() for c in v) for h, v in zip(holes, vals))
+    # (only attribute holes count; text-hole values never excuse a ValueError.  Since ae5d17b a "[" in an
+    # attribute value is refused the same way: that ValueError is the expected behaviour.)
+    guard = any(h != "t" and (any(c.isspace() for c in v) or "[" in v) for h, v in zip(holes, vals))
     if rv[0] == 97:
         return ("%s template %r with (formatted) values %r: the %% operator and a format() field syntax disagree: %r vs %r"
                 % (kind, parts, vals, short(rv[1], 120), short(rv[2], 120)))
-    if rv[0] == 96:
-        return ("%s template %r: the %% operator with a width/precision conversion gives %r, expected the value formatted by "
-                "the conversion and then shown as text: %r" % (kind, parts, rv[2], rv[1]))
+    note96 = None
+    if rv[0] in (96, 93):
+        note96 = ("%s template %r: the %% operator with a width/precision conversion gives %r, expected the value formatted by "
+                  "the conversion and then shown as text: %r%s" % (kind, parts, rv[2], rv[1],
+                                                                   "" if rv[0] == 96 else " (and escaping the value before the conversion does not explain it)"))
+        if rv[0] == 93:
+            note96 = "UNEXPLAINED " + note96
+        rv = rv[1]             # the inertness comparison goes on with the reference all format() variants agreed on
     if rv[0] != 0:
         if rv[0] == 1 and guard:
-            return None
+            return note96
         return "%s template %r with values %r raised %s" % (kind, parts, vals, {1: "ValueError", 2: "ExpatError"}.get(rv[0], rv))
     fb, fv = flat(rb[1]), flat(rv[1])
     if len(fb) != len(fv):
@@ -592,6 +610,9 @@ def _inert_check(kind, parts, vals, holes, run):
             if holes[j] != "t" and v:
                 want_style = want_style.replace(BENIGN[j] * len(v), v)
                 want2 = want2.replace(BENIGN[j] * len(v), "".join(c if xml_char(c) else "?" for c in v))
+        if sv in (want_style, want2) and zb != zv:
+            return ("%s template %r, values %r: the fragment with style %r is zero-width raw output, with a benign value it is ordinary text"
+                    % (kind, parts, vals, sv))
         if sv not in (want_style, want2) or zb != zv:
             return "%s template %r, values %r: a fragment has style %r, expected %r" % (kind, parts, vals, sv, want_style)
         if len(sv.split()) != len(sb.split()):
@@ -610,7 +631,7 @@ def _inert_check(kind, parts, vals, holes, run):
                 return "%s template %r, values %r: value character %r came out as %r" % (kind, parts, vals, want, cv)
         elif cb != cv:
             return "%s template %r, values %r: template text %r changed to %r" % (kind, parts, vals, cb, cv)
-    return None
+    return note96
 
 
 def _causes(kind):
@@ -620,7 +641,8 @@ def _causes(kind):
                 ("unescaped-zero-width-marker", lambda h, v: v.replace("\x01", "a"))]
     return [("xml-invalid-char", lambda h, v: "".join(c if xml_char(c) else "a" for c in v)),
             ("apos-in-single-quoted-attr", lambda h, v: v.replace("'", "a") if h == "s" else v),
-            ("attr-unicode-space", lambda h, v: "".join("a" if (c.isspace() and c not in " \t\n\r") else c for c in v) if h != "t" else v)]
+            ("attr-unicode-space", lambda h, v: "".join("a" if (c.isspace() and c not in " \t\n\r") else c for c in v) if h != "t" else v),
+            ("attr-style-marker", lambda h, v: v.replace("[", "a") if h != "t" else v)]
 
 
 def oracle_inert(kind, parts, vals, holes, run, m=None):
@@ -635,6 +657,8 @@ def oracle_inert(kind, parts, vals, holes, run, m=None):
     op = kind + "-interpolation"
     if "disagree" in what:
         return (what, {"op": op, "family": "engines-differ"})
+    if what.startswith("UNEXPLAINED "):
+        return (what, {"op": op, "family": "percent-conversion-unexplained"})
     if "width/precision conversion" in what:
         if m and m.get("pspecs") and any(not isinstance(r, str) for r in m["raw"]):
             return (what + " [%% conversions %r on raw values %r]" % (m["pspecs"], m["raw"]),
@@ -657,7 +681,8 @@ def oracle_inert(kind, parts, vals, holes, run, m=None):
 
 NAMES = ["b", "i", "u", "s", "style", "username", "html-root", "x-y.z", "A_1"]
 ATTRS = ["fg", "bg", "color"]
-ATTVALS = ["red", "#ff0000", "ansiblue", "", "a b", "x&amp;y", "&lt;", "it&apos;s", ">", "&#35;00ff00", "a&#x2d;b"]
+ATTVALS = ["red", "#ff0000", "ansiblue", "", "a b", "x&amp;y", "&lt;", "it&apos;s", ">", "&#35;00ff00", "a&#x2d;b",
+           "[", ZWE, "a" + ZWE]
 TEXTS = ["a", "b c", " ", "\n", "&amp;", "&lt;", "&gt;", "&quot;", "&apos;", "a>b", '"', "'", "\xe9", "x=y", "\u754c", "[", "]", "&#65;", "&#x3c;", "&#x1F600;"]
 ENT = {"&amp;": "&", "&lt;": "<", "&gt;": ">", "&quot;": '"', "&apos;": "'"}
 
@@ -699,8 +724,8 @@ def gen_tree(rng, depth, holes, maxholes):
                     holes.append("s" if q == "'" else "d")
                 else:
                     v = rng.choice(ATTVALS)
-                    if maxholes and " " in v:
-                        v = "ansiblue"          # a template must itself be a valid HTML() argument
+                    if maxholes and (" " in v or "[" in v):
+                        v = "ansiblue"          # a template must itself be a valid HTML() argument (and not zero-width by itself)
                     if q in v:
                         v = "red"
                     pc = [v]
@@ -769,7 +794,7 @@ def expected_html(ch):
                         fg = v
                     else:
                         bg = v
-                if " " in fg or " " in bg:
+                if " " in fg or " " in bg or "[" in fg or "[" in bg:
                     err.append(1)
                 nm = n[1] not in ("html-root", "style")
                 walk(n[3], names + [n[1]] if nm else names, fgs + [fg] if fg else fgs, bgs + [bg] if bg else bgs)
@@ -913,7 +938,7 @@ def gen_cases(chk):
         add("ANSI-template/random", [4, [S(p) for p in parts], [S(v) for v in vals]], {"holes": ["t"] * len(vals)})
 
     # ---- format specs (width / alignment / precision): the value formatted by the spec, then inert text
-    spec_vals = list(words(["a", "<", "&", '"', "'", ">", "\x1b"], 2)) + ["a<b>c", "&&&&", "x<y>z", "<&>", "a&b", "\x9b31m", "\xe9<\u754c"]
+    spec_vals = list(words(["a", "<", "&", '"', "'", ">", "\x1b"], 2)) + ["a<b>c", "&&&&", "x<y>z", "<&>", "a&b", "\x9b31m", "\xe9<\u754c", ZWE]
     if thorough:
         spec_vals += [w for w in words(["a", "<", "&", '"', "'"], 4) if len(w) >= 3]
     for kk, tpls in ((4, [(["a", "b"], ["t"]), (["\x1b[31m", "|\x1b[0m", "."], ["t", "t"])]),
@@ -934,7 +959,7 @@ def gen_cases(chk):
     # ---- % conversions other than %s, on non-string values: the conversion's OUTPUT, escaped, as inert text
     pconv = [("%d", 5), ("%d", -12), ("%5d", 42), ("%-4d", 7), ("%05.1f", 3.14159), ("%x", 255), ("%X", 255), ("%c", 65), ("%c", "<"),
              ("%r", "<&"), ("%r", 5), ("%s", 5), ("%s", None), ("%10s", 3.5), ("%e", 12345.678), ("%g", 0.5), ("%i", 3), ("%o", 8),
-             ("%a", "\xe9<"), ("%s", "plain"), ("%.2s", 12345)]
+             ("%a", "\xe9<"), ("%s", "plain"), ("%.2s", 12345), ("%s", ZWE), ("%20s", ZWE)]
     for kk, tpls in ((4, [["a", "b"], ["\x1b[31m", "|\x1b[0m"]]), (7, [["<b>", "</b>|"], ["", ""], ["<style fg=\"", "\">x</style>"]])):
         for parts in tpls:
             for sp, rv in pconv:
@@ -1126,8 +1151,8 @@ def oracle_case(case, res, m):
         s = unS(case[1])
         if not (isinstance(res, list) and len(res) == 2 and isinstance(res[0], list)):
             return ("to_plain_text(ANSI(%r)) raised" % s[:60], {"op": "ANSI", "family": "parse-raises", "cause": ansi_raise_cause(s)})
-        ev, ez, amb = ansi_expected(s)
-        if not amb and (unS(res[0]), [unS(z) for z in res[1]]) != (ev, ez):
+        ev, ez, _ = ansi_expected(s)
+        if (unS(res[0]), [unS(z) for z in res[1]]) != (ev, ez):
             return ("to_plain_text(ANSI(%r)) = %r / zero-width %r, expected %r / %r" % (s[:60], unS(res[0])[:60], res[1][:3], ev[:60], ez[:3]),
                     {"op": "ANSI", "family": "visible-text"})
         return None
@@ -1165,9 +1190,12 @@ def oracle_case(case, res, m):
         if res[0] != 0:
             return ("HTML(%r) raised (%r) on a document of the template grammar" % (s, res), {"op": "HTML", "family": "raises"})
         got = [(unS(a), unS(b)) for a, b, _ in res[1]]
-        if "".join(t for _, t in got) != "".join(t for _, t in exp):
-            return ("HTML(%r): plain text %r, expected %r" % (s, "".join(t for _, t in got), "".join(t for _, t in exp)),
-                    {"op": "HTML", "family": "visible-text"})
+        plain = "".join(t for st, t in got if ZWE not in st)          # what to_plain_text gives
+        if plain != "".join(t for _, t in exp):
+            marker = ZWE in s and "".join(t for _, t in got) == "".join(t for _, t in exp)
+            return ("HTML(%r): plain text %r, expected %r%s" % (s, plain, "".join(t for _, t in exp),
+                                                                " (an fg/bg/color attribute containing the marker turns the element's text into zero-width raw output)" if marker else ""),
+                    {"op": "HTML", "family": "attr-style-marker" if marker else "visible-text"})
         if got != exp:
             return ("HTML(%r): fragments %r, expected %r" % (s, got, exp), {"op": "HTML", "family": "styles"})
     return None
@@ -1224,6 +1252,24 @@ def describe_case(case):
     return short(case, 160)
 
 
+def load_corpus_with_meta():
+    """corpus/C18/*.json: {"case": ..., "meta": ...}; kinds 4/6/7/8 need their meta (holes / tree) for the oracle,
+    so a corpus file of such a kind without it is refused rather than silently run without an oracle."""
+    d = os.path.join(VERIF, "corpus", PROP)
+    cs, ms = [], []
+    if os.path.isdir(d):
+        for f in sorted(os.listdir(d)):
+            if f.endswith(".json"):
+                j = json.load(open(os.path.join(d, f)))
+                c = sx_norm(j["case"])
+                m = j.get("meta")
+                if c and c[0] in (4, 7, 8) and m is None:
+                    raise SystemExit("corpus file %s: a case of kind %r needs its meta" % (f, c[0]))
+                cs.append(c)
+                ms.append(m)
+    return cs, ms
+
+
 def main(tier):
     chk = Check(PROP, tier)
     pr = chk.proofs("Props/C18.v", tables=TABLES)
@@ -1237,19 +1283,19 @@ def main(tier):
     # snapshot again is reported (and the oracle below supplies the failing inputs).
     variant = probe_cfg()
     chk.coverage["variant_probe"] = variant
-    if variant != [1] * 6:
+    if variant != [1] * 7:
         names = ["ansi_escape neutralises \\x9b \\001 \\002", "CSI parameters: ASCII digits, bounded int", "html_escape escapes '",
                  "html_escape neutralises characters XML cannot carry", "zero-width region returns to the top of the loop",
-                 "fg/bg guard rejects every whitespace character"]
+                 "fg/bg guard rejects every whitespace character", "fg/bg guard rejects '['"]
         lost = [n for n, b in zip(names, variant) if not b]
         chk.violation("tie", "/repo no longer behaves like the repaired code the model follows: " + "; ".join(lost),
                       {"kind": "variant-probe", "lost": ",".join(str(i) for i, b in enumerate(variant) if not b)},
-                      {"probe": variant, "expected": [1] * 6, "lost": lost,
+                      {"probe": variant, "expected": [1] * 7, "lost": lost,
                        "failing_input": "see the other replay files of this run"}, no_input=True)
     cases, meta, dist = gen_cases(chk)
-    corpus = load_corpus(PROP)
+    corpus, corpus_meta = load_corpus_with_meta()
     cases = corpus + cases
-    meta = [None] * len(corpus) + meta
+    meta = corpus_meta + meta
     impl_results = []
     oracle_bad = set()
     skipped_unusable = 0
@@ -1291,7 +1337,7 @@ def main(tier):
         cmp_cases.append(c)
         # [96, reference, %-conversion result]: the oracle has reported the %-conversion defect; the model
         # (template[escape(format(v, spec))]) is compared with the reference all format() variants agreed on
-        cmp_impl.append(a[1] if (isinstance(a, list) and len(a) == 3 and a[0] == 96) else a)
+        cmp_impl.append(a[1] if (isinstance(a, list) and len(a) == 3 and a[0] in (96, 93)) else a)
         cmp_idx.append(i)
     chk.coverage["outside_modelled_xml_subset"] = outside
 
@@ -1326,13 +1372,18 @@ def main(tier):
         "distinct by hash of the case" % (3 if thorough_(chk) else 2, 5 if thorough_(chk) else 4, ANSI_ALPHA, 3 if thorough_(chk) else 2,
                                           len(VAL_ALPHA), 5 if thorough_(chk) else 4, BREAKOUT_ALPHA, 5 if thorough_(chk) else 4, HTML_RAW_ALPHA))
     chk.assumptions += [
-        "expat/minidom are outside the model: HTML is modelled over an XML subset (ASCII names, quoted attributes, five entities, "
+        "expat/minidom are outside the model: HTML is modelled over an XML subset (ASCII names, quoted attributes, five entities and numeric character references, "
         "Char production, line-end/attribute normalisation); documents outside it (model answer 3) are not compared: %d this run" % outside,
         "str.format/Formatter.vformat and the % operator are outside the model: the theorems are about template[escape v]; that both "
         "engines place the escaped value unchanged is exercised by running both on every template case; for fields with a width/"
         "alignment/precision spec the model is given format(value, spec) computed by CPython and the engines get the raw value",
         "str.isdigit/int() are modelled from tables regenerated from the running CPython (decimal runs, non-decimal digits, int digit limit)",
         "mouse handlers / tuple tails are opaque ids carried unchanged",
+        "the model runs cfg_now only: the cfg_pinned branches (behind the `_pinned_refuted` theorems) and the `*_patched` definitions "
+        "(proposed patches not in /repo) are exercised by no case of this run",
+        "HTML theorems (whole template, plain text) are about normal-form templates (literal text written as html_escape writes it, "
+        "<name attr=QvQ> tags); raw > ' \" and &#N; in literals, spaces around '=', and <x/> are covered by correspondence + tree oracle only",
+        "wcwidth (per-character widths sent with each case) and the % engine (an arbitrary conversion function) are parameters of the theorems",
     ]
     return chk.finish()
 
@@ -1361,7 +1412,7 @@ def replay(data):
     else:
         print("oracle ok")
     mm = run_model("c18", [case])[0]
-    if isinstance(res, list) and len(res) == 3 and res[0] == 96:
+    if isinstance(res, list) and len(res) == 3 and res[0] in (96, 93):
         res = res[1]
     print("model agrees" if mm == res else ("model outside its XML subset" if mm == [3] else "model differs: %s" % short(mm, 400)))
     return rc
